@@ -130,6 +130,11 @@ def check_init(res, ss, tag, expect=None, run_after=True):
         for k in range(m.n):
             if m.u.v[k] != 0 and float(np.ravel(ss.StaticGen.get("u", m.gen.v[k], "v"))[0]) == 0:
                 inconsistent = True
+    # output of every static generator in the power-flow solution (the power the dynamic devices on it take over)
+    pq_static = {}
+    for G in (ss.PV, ss.Slack):
+        for k in range(G.n):
+            pq_static[str(G.idx.v[k])] = (float(G.p.v[k]), float(G.q.v[k]))
     ss.TDS.config.no_tqdm = 1
     try:
         ss.TDS.init()
@@ -170,7 +175,8 @@ def check_init(res, ss, tag, expect=None, run_after=True):
     test_ok = ss.TDS.test_ok
     active = limiter_active(ss)
     allr = np.concatenate([rf, rg])
-    out = dict(test_ok=test_ok, worst=worst, nan=has_nan, active=active, exit_code=int(ss.exit_code),
+    nan_real = bool(np.any(np.isnan(f_real[~nochk])) or np.any(np.isnan(g_real)))
+    out = dict(test_ok=test_ok, worst=worst, nan=has_nan, nan_real=nan_real, active=active, exit_code=int(ss.exit_code),
                worst_name=(list(dae.x_name) + list(dae.y_name))[int(np.nanargmax(allr))] if allr.size and not np.all(np.isnan(allr)) else None)
     if test_ok is False and ss.exit_code == 0:
         res.violate("init_failure_exit_code_zero", "%s: initialisation failed but System.exit_code is 0" % tag)
@@ -183,7 +189,7 @@ def check_init(res, ss, tag, expect=None, run_after=True):
         res.count("out_of_scope_limiter_active_or_illposed_islands")
         return out
     # consistency between ANDES' verdict and the independent one
-    if test_ok is True and (worst > 10 * tol or has_nan):
+    if test_ok is True and (worst > 10 * tol or has_nan or nan_real):
         j = int(np.nanargmax(np.concatenate([rf, rg]))) if not has_nan else -1
         nm = (list(dae.x_name) + list(dae.y_name))[j] if j >= 0 else "NaN"
         res.violate("init_success_with_residual", "%s: initialisation reports success but the independent residual of %s is %.3e (tol %.1e)" % (
@@ -197,6 +203,22 @@ def check_init(res, ss, tag, expect=None, run_after=True):
     if not np.array_equal(v_now, v_pf):
         d = float(np.max(np.abs(v_now - v_pf)))
         res.violate("bus_voltage_changed_by_init", "%s: bus voltages after initialisation differ from the power-flow solution by %.3e" % (tag, d))
+    # each machine carries the share of its static generator's output that its split factors prescribe
+    if test_ok is True:
+        for mname, m in ss.SynGen.models.items():
+            for k in range(m.n):
+                if m.u.v[k] == 0 or str(m.gen.v[k]) not in pq_static:
+                    continue
+                ps, qs = pq_static[str(m.gen.v[k])]
+                wp, wq = float(m.gammap.v[k]) * ps, float(m.gammaq.v[k]) * qs
+                gp, gq = float(m.Pe.v[k]), float(m.Qe.v[k])
+                res.count("machine_shares_checked")
+                if m.gammap.v[k] != m.gammaq.v[k]:
+                    res.count("machine_shares_checked_unequal_factors")
+                if abs(gp - wp) > 1e-6 * (1 + abs(wp)) + 10 * tol or abs(gq - wq) > 1e-6 * (1 + abs(wq)) + 10 * tol:
+                    res.violate("machine_share_wrong", "%s: %s %r on static generator %r (P=%.6f, Q=%.6f; gammap=%.3f, gammaq=%.3f) starts with "
+                                "P=%.6f, Q=%.6f; its share is P=%.6f, Q=%.6f" % (tag, mname, m.idx.v[k], m.gen.v[k], ps, qs, float(m.gammap.v[k]),
+                                                                                  float(m.gammaq.v[k]), gp, gq, wp, wq), model=mname)
     # undisturbed run
     if run_after and test_ok is True:
         ss.TDS.config.tf = 2.0
@@ -327,8 +349,13 @@ def compose(rng, base, negative=None):
         vn = float(G.Vn.v[k])
         nmach = 2 if rng.random() < 0.25 else 1
         gam = [1.0] if nmach == 1 else [float(np.round(rng.uniform(0.3, 0.7), 2))]
+        gamq = list(gam)
         if nmach == 2:
             gam.append(1.0 - gam[0])
+            # reactive power may be split differently from active power
+            if rng.random() < 0.7:
+                gamq = [float(np.round(rng.uniform(0.2, 0.8), 2))]
+            gamq.append(1.0 - gamq[0])
             if negative == "gamma":
                 gam[1] = gam[1] + 0.2
                 negative = None
@@ -336,7 +363,7 @@ def compose(rng, base, negative=None):
             key = syn_models[int(rng.integers(0, len(syn_models)))]
             row = dict(lib[key][int(rng.integers(0, len(lib[key])))])
             sn = float(max(100.0, abs(float(G.p0.v[k])) * float(ss.config.mva) * 1.5))
-            row.update(bus=bus, gen=gidx, Vn=vn, Sn=sn, gammap=gam[mi], gammaq=gam[mi], u=1)
+            row.update(bus=bus, gen=gidx, Vn=vn, Sn=sn, gammap=gam[mi], gammaq=gamq[mi], u=1)
             row.pop("coi", None)
             row.pop("coi2", None)
             sidx = ss.add(key[1], row)
@@ -416,11 +443,31 @@ def run_negative(spec, res):
     else:
         ss, desc, count = compose(rng, base, negative="gamma" if kind == "gamma" else None)
     tag = "negative(%s) on %s" % (kind, base)
+    tag_extra = ""
     try:
         ss.setup()
         if kind == "nan_param":
-            m = ss.GENROU if ss.GENROU.n else ss.GENCLS
-            m.M.v[0] = float("nan")
+            # a non-finite value in one parameter that one of the dynamic equations reads: that residual is NaN,
+            # every other residual is fine - "residuals are not zero" all the same
+            import re
+            from andes.core.param import NumParam
+            cands = []
+            for mn, md in ss.exist.tds.items():
+                if md.n == 0 or md.flags.f_num or md.flags.g_num:
+                    continue
+                estr = " ".join(str(v.e_str) for v in md.cache.all_vars.values() if v.e_str is not None)
+                for pn, par in md.params.items():
+                    if isinstance(par, NumParam) and pn not in ("u",) and re.search(r"(?<![A-Za-z0-9_])%s(?![A-Za-z0-9_])" % re.escape(pn), estr):
+                        cands.append((mn, pn))
+            if not cands:
+                res.inconc("no parameter to spoil")
+                return
+            mn, pn = cands[int(rng.integers(0, len(cands)))]
+            md = ss.__dict__[mn]
+            k = int(rng.integers(0, md.n))
+            md.params[pn].v[k] = float("nan")
+            desc = list(desc) + ["%s.%s[%d] = NaN" % (mn, pn, k)]
+            tag_extra = " %s.%s[%d]=NaN" % (mn, pn, k)
         if not ss.PFlow.run():
             res.inconc("power flow failed")
             return
@@ -431,6 +478,7 @@ def run_negative(spec, res):
     except Exception as e:
         res.inconc("preparation raised %r" % (e,))
         return
+    tag += tag_extra
     out = check_init(res, ss, tag, run_after=False)
     res.sig = "negative:%s:%d" % (kind, spec["index"])
     if "raised" in out:
@@ -441,11 +489,14 @@ def run_negative(spec, res):
             res.nontrivial = True
             res.sample = dict(kind=kind, base=base, outcome="limiter active at the initial point: %s" % out["active"][:3])
             return
-        bad = out["worst"] > 10 * float(ss.TDS.config.tol) or out["nan"]
+        bad = out["worst"] > 10 * float(ss.TDS.config.tol) or out["nan"] or out["nan_real"]
+        if out["nan"] or out["nan_real"]:
+            res.count("negative_cases_with_nan_residual")
         if bad:
             res.count("negative_cases_with_residual")
         if bad and out["test_ok"] is not False:
-            res.violate("init_residual_not_reported", "%s: residual %.3e at %s (NaN %s) but test_ok is %r" % (tag, out["worst"], out.get("worst_name"), out["nan"], out["test_ok"]))
+            res.violate("init_residual_not_reported", "%s: residual %.3e at %s (NaN in the oracle's / ANDES' own residual: %s / %s) but test_ok is %r" % (
+            tag, out["worst"], out.get("worst_name"), out["nan"], out["nan_real"], out["test_ok"]))
     res.nontrivial = True
     res.sample = dict(kind=kind, base=base, outcome={k: (v if not isinstance(v, Exception) else repr(v)) for k, v in out.items() if k != "active"})
 
